@@ -410,6 +410,8 @@ def _spec_helpers():
 
         for a in args[1:]:
             rec(a)
+        if not flat:
+            return Sym(z3.Real(f"spec_{name}"), "real")
         f = z3.Function(f"spec_{name}", *[x.sort() for x in flat], z3.RealSort())
         return Sym(f(*flat), "real")
 
@@ -641,6 +643,18 @@ def verify(spec, registry=None, max_paths=400, only_clauses=None, only_cfg=None)
                     for an in spec.get("assume_numeric", []):  # constant lemmas, checked numerically at run time
                         ctx.assume(eval_spec(I, an, post_env, mod))
                         ctx.trusted.add(f"ASSUMED constant lemma (checked numerically with mpmath at run time): {an}")
+                    for lk, lexpr in enumerate(spec.get("pure_lemmas", [])):
+                        # instances of facts of pure real arithmetic (e.g. cancellation x*m == K*m and m >= 1 -> x == K),
+                        # stated over post-state terms: each is proved VALID on its own — from no hypotheses, with every
+                        # non-arithmetic subterm (to_real of an integer term, function application) generalised to a fresh
+                        # real — and only then assumed for the ensures clauses of this path
+                        lz = z_of(v_truth(eval_spec(I, lexpr, post_env, mod)))
+                        lr = smt.prove_pure_real(lz)
+                        vcs.append(dict(name=f"{prop}/{base}/pure-lemma[{lk}]{tag}", cfg=describe_cfg(cfg),
+                                        presolved=dict(status=lr["status"], backend=lr.get("backend"), time_s=lr.get("time_s", 0.0),
+                                                       reason=lr.get("reason"))))
+                        if lr["status"] == "discharged":
+                            ctx.assume(lz)
                     for cname, cexpr in spec.get("ensures", []):
                         if only_clauses and cname not in only_clauses:
                             continue
@@ -755,6 +769,8 @@ def _solve_vc(i):
     if "unsupported" in vc:
         return dict(name=vc["name"], status="undecided", reason="UNSUPPORTED: " + vc["unsupported"],
                     property_level=False, cfg=vc.get("cfg"))
+    if "presolved" in vc:
+        return dict(name=vc["name"], clause="pure-lemma", property_level=False, cfg=vc.get("cfg"), **vc["presolved"])
     r = None
     ids = vc.get("uf_fact_ids") or set()
     if ids:
